@@ -84,11 +84,12 @@ const (
 	sExpiredInterm // leaf valid, the intermediate that issued it expired before Config.Time
 	sIPMatch       // ServerName is an IP address, the leaf has exactly that iPAddress SAN
 	sIPMismatch    // ServerName is an IP address, the leaf has another iPAddress SAN (and the address as CN / dNSName text)
+	sExpiredRoot   // leaf and intermediate valid, the configured root they lead to expired before Config.Time
 	nSScen
 )
 
 var sScenNames = [...]string{"trusted", "untrusted-root", "expired", "not-yet-valid", "wrong-name", "wrong-key", "sig-corrupt", "intermediate-missing", "key-substitution",
-	"wrong-eku", "expired-intermediate", "ip-san-match", "ip-san-mismatch"}
+	"wrong-eku", "expired-intermediate", "ip-san-match", "ip-san-mismatch", "expired-root"}
 
 type cScen int
 
@@ -99,11 +100,12 @@ const (
 	cExpired
 	cWrongKey
 	cCVCorrupt
-	cWrongEKU // leaf carries only the serverAuth extended key usage
+	cWrongEKU     // leaf carries only the serverAuth extended key usage
+	cExpiredRoot  // leaf and intermediate valid, the ClientCAs root they lead to expired before Config.Time
 	nCScen
 )
 
-var cScenNames = [...]string{"none", "trusted", "untrusted", "expired", "wrong-key", "cv-corrupt", "wrong-eku"}
+var cScenNames = [...]string{"none", "trusted", "untrusted", "expired", "wrong-key", "cv-corrupt", "wrong-eku", "expired-root"}
 
 var authModes = []tls.ClientAuthType{tls.NoClientCert, tls.RequestClientCert, tls.RequireAnyClientCert, tls.VerifyClientCertIfGiven, tls.RequireAndVerifyClientCert}
 var authNames = [...]string{"NoClientCert", "RequestClientCert", "RequireAnyClientCert", "VerifyClientCertIfGiven", "RequireAndVerifyClientCert"}
@@ -238,13 +240,13 @@ func buildConfigs(g cfg, p *pki) (cc, sc *tls.Config, m *mitm, probes *probe) {
 	cc = &tls.Config{
 		Rand: tlsx.NewDetRand("c-" + seed), Time: tlsx.Now,
 		MinVersion: g.Vers, MaxVersion: g.Vers,
-		ServerName: serverNameFor(g.SScen), RootCAs: p.pool(p.sroot),
+		ServerName: serverNameFor(g.SScen), RootCAs: p.pool(p.sroot, p.srootOld),
 		InsecureSkipVerify: g.ISV,
 	}
 	sc = &tls.Config{
 		Rand: tlsx.NewDetRand("s-" + seed), Time: tlsx.Now,
 		MinVersion: g.Vers, MaxVersion: g.Vers,
-		ClientAuth: authModes[g.Mode], ClientCAs: p.pool(p.croot),
+		ClientAuth: authModes[g.Mode], ClientCAs: p.pool(p.croot, p.crootOld),
 	}
 	if !g.Kex.tls13() {
 		cc.CipherSuites = []uint16{suite}
@@ -589,7 +591,7 @@ func main() {
 			c.Broken("PKI fixture labels disagree with the Go standard library verifier: %v", err)
 		}
 		strictISV := os.Getenv("C27_STRICT_ISV") == "1"
-		c.Rule("(1) full product versions{1.0,1.1,1.2,1.3} x kex{RSA,ECDHE-RSA,ECDHE-ECDSA,DHE-RSA | TLS1.3 with RSA-PSS / ECDSA leaf} x server scenario(13: trusted, untrusted root, expired, not yet valid, wrong name, wrong key, corrupted signature, intermediate missing, key substitution, clientAuth-only EKU, expired intermediate, IP ServerName with / without matching iPAddress SAN) x InsecureSkipVerify{f,t} x ClientAuth(5) x client scenario(7: none, trusted, untrusted, expired, wrong key, corrupted CertificateVerify, serverAuth-only EKU), pruned only by: class exists in version; static RSA has no server signature to corrupt. A point is non-trivial when some non-baseline value is active (server scenario != trusted, client scenario not in {none,trusted}, or a certificate is requested). Where the handshake must fail, the endpoint owning the failed check must be the one that aborts. " +
+		c.Rule("(1) full product versions{1.0,1.1,1.2,1.3} x kex{RSA,ECDHE-RSA,ECDHE-ECDSA,DHE-RSA | TLS1.3 with RSA-PSS / ECDSA leaf} x server scenario(14: trusted, untrusted root, expired, not yet valid, wrong name, wrong key, corrupted signature, intermediate missing, key substitution, clientAuth-only EKU, expired intermediate, IP ServerName with / without matching iPAddress SAN, valid leaf and intermediate under a configured root that expired before Config.Time) x InsecureSkipVerify{f,t} x ClientAuth(5) x client scenario(8: none, trusted, untrusted, expired, wrong key, corrupted CertificateVerify, serverAuth-only EKU, valid chain under an expired ClientCAs root), pruned only by: class exists in version; static RSA has no server signature to corrupt. A point is non-trivial when some non-baseline value is active (server scenario != trusted, client scenario not in {none,trusted}, or a certificate is requested). Where the handshake must fail, the endpoint owning the failed check must be the one that aborts. " +
 			"(2) resumption axis: pairs (issue connection at T0, resume connection offering its ticket to a server with the same ticket key): version(4) x server scenario{trusted 20y, leaf expiring T0+24h, untrusted root, wrong name} x issue-ISV{f,t} x issue ClientAuth(5) x issue client certificate{none, trusted 20y, expiring T0+24h, untrusted} [pruned: issue connection must fail; certificate never requested = none] x resume-ISV{f,t} x resume ServerName{same, other.example} x resume ClientAuth(5) x ClientCAs{same, replaced} x client certificate for a full handshake{none, trusted} x both clocks{T0, T0+48h}. Quick: the two covering slices (all server-side dimensions with client authentication off; all client-authentication dimensions with the trusted long-lived server) for ECDHE-ECDSA / TLS1.3-ECDSA; thorough: the slices for every key-exchange class plus the whole product for ECDHE-ECDSA / TLS1.3-ECDSA")
 		c.Assume(
 			"oracle = truth table over the scenario labels (by construction of the PKI; labels cross-checked at start against Go's crypto/x509.Verify, never against zcrypto)",
